@@ -536,7 +536,8 @@ theorem insert_agree_outside_hive (d d' : Gen.D) (h : InsertHead) (q : Query) (h
 
 The printer can also fail for reasons that have nothing to do with the dialect: a node built by hand (not by the parser)
 may carry an enum member name outside the generated tables (`UNMODELLED`), `None` where `ASTSelectStatement.with_clause`
-is dereferenced (`AttributeError`), or an empty grouping set (`IndexError`).  `illFormed` flags exactly those nodes. -/
+is dereferenced (`AttributeError`).  `illFormed` flags exactly those nodes.  (An empty grouping set was a third reason
+until the repair 1fd5412 of `ASTGroupingSets.source`; it now prints `()` and is well-formed.) -/
 
 def unknownName {β : Type} (tbl : List (String × β)) (n : String) : Bool := (tbl.find? (·.1 == n)).isNone
 
@@ -549,7 +550,6 @@ def illFormed : Loc where
     | _ => false
   s := fun | .mk ws _ _ _ _ _ _ _ _ _ _ _ _ _ => ws.isNone
   j := fun | .mk ty _ _ => unknownName Gen.joinTypes ty
-  g := fun | .mk _ sets _ _ => match sets with | some l => l.any List.isEmpty | none => false
   q := fun
     | .single _ => false
     | .union ws _ us => ws.isNone || us.any fun p => unknownName Gen.unionTypes p.1
@@ -564,7 +564,6 @@ def notPrintable (d : Gen.D) : Loc where
   e := fun x => illFormed.e x || (refusedLoc d).e x
   s := fun x => illFormed.s x || (refusedLoc d).s x
   j := illFormed.j
-  g := illFormed.g
   q := illFormed.q
 
 theorem computeOpSrc_res (d : Gen.D) (o : String) (h : unknownName Gen.computeEnum o = false) :
@@ -619,13 +618,6 @@ theorem prSGuard_res (d : Gen.D) (lats : List Lateral) (sb : Option (List OrderI
     · exact OkOr.error rfl
     · exact OkOr.ok _
 
-theorem illFormed_grp (gc : List Expr) (sets : Option (List (List Expr))) (cube rollup : Bool)
-    (h : illFormed.g (.mk gc sets cube rollup) = false) : ∀ l, sets = some l → [] ∉ l := by
-  intro l hl hmem
-  subst hl
-  simp only [illFormed, List.any_eq_false] at h
-  exact h [] hmem rfl
-
 theorem illFormed_qry {E : Err → Prop} (ws : Option (List WithTable)) (x : Select) (us : List (String × Select))
     (h : illFormed.q (.union ws x us) = false) : ws ≠ none ∧ ∀ p ∈ us, OkOr E (wordsSrc Gen.unionTypes p.1) := by
   simp only [illFormed, Bool.or_eq_false_iff, List.any_eq_false] at h
@@ -658,7 +650,6 @@ theorem illFormed_clean (d : Gen.D) : illFormed.Clean d (· = .notSupported) whe
   join := by
     intro ty t rule h
     exact okOr_of_ok (wordsSrc_ok Gen.joinTypes ty h)
-  grp := illFormed_grp
   qry := illFormed_qry
 
 /-- **C13.refusal_is_notSupported**: on a well-formed query tree, a construct of family `c` at any depth printed for a
@@ -724,7 +715,6 @@ theorem notPrintable_clean (d : Gen.D) : (notPrintable d).Clean d (fun _ => Fals
   join := by
     intro ty t rule h
     exact okOr_of_ok (wordsSrc_ok Gen.joinTypes ty h)
-  grp := illFormed_grp
   qry := illFormed_qry
 
 theorem unknown_find {β : Type} (tbl : List (String × β)) (n : String) (h : unknownName tbl n = true) :
@@ -776,34 +766,7 @@ theorem notPrintable_refused (d : Gen.D) : (notPrintable d).Refused d where
     have hx' : unknownName Gen.joinTypes ty = true := hx
     rcases rule with _ | ⟨c | u⟩ <;> simp [prJoin, bind_eq_ok, fmap_eq_ok, wordsSrc, unknown_find _ _ hx'] at hs
   g := by
-    intro x hx s hs
-    obtain ⟨gc, sets, cube, rollup⟩ := x
-    cases sets with
-    | none => simp [notPrintable, illFormed] at hx
-    | some l =>
-      have hx' : l.any List.isEmpty = true := hx
-      simp only [prGroupBy, bind_eq_ok, map_eq_ok] at hs
-      obtain ⟨_, -, _, ⟨y, hy, -⟩, -⟩ := hs
-      have key : ∀ (l : List (List Expr)), l.any List.isEmpty = true → ∀ y, prSets d l ≠ .ok y := by
-        intro l
-        induction l with
-        | nil => simp
-        | cons g r ih =>
-          intro h y hy
-          cases g with
-          | nil => simp [prSets, bind_eq_ok] at hy
-          | cons a t =>
-            simp only [List.any_cons, List.isEmpty_cons, Bool.false_or] at h
-            cases t with
-            | nil =>
-              simp only [prSets, bind_eq_ok] at hy
-              obtain ⟨_, -, z, hz, -⟩ := hy
-              exact ih h z hz
-            | cons b t =>
-              simp only [prSets, bind_eq_ok] at hy
-              obtain ⟨_, -, z, hz, -⟩ := hy
-              exact ih h z hz
-      exact key l hx' y hy
+    intro x hx; simp [notPrintable] at hx
   q := by
     intro x hx s hs
     cases x with
@@ -1113,6 +1076,23 @@ example (d : Gen.D) : unsupported d plain = false := by cases d <;> decide
 def illQ : Query := .single (sel [(.compute (.column none "a") "NO_SUCH_MEMBER" (.literal "1"), none)] "t")
 example : anyQ illFormed illQ = true := by decide
 example (d : Gen.D) : ¬ ∃ s, prQ d illQ = .ok s := fun h => absurd ((printable_iff d illQ).1 h) (by cases d <;> decide)
+/-- grouping sets after the repair 1fd5412: an EMPTY group is well-formed and printed `()` by every dialect (through the
+theorem, kernel-checked); a one-element group whose text starts with `(` keeps the group brackets -/
+def gsel (g : GroupBy) : Query :=
+  .single (.mk (some []) false [(.column none "a", none)] (some [.mk (.table none "t") none]) [] [] none (some g) none none none none none none)
+def emptyGroupQ : Query := gsel (.mk [.column none "a"] (some [[], [.column none "a"]]) false false)
+def bracketGroupQ : Query := gsel (.mk [.column none "a"]
+  (some [[.compute (.compute (.column none "a") "PLUS" (.column none "b")) "MULTIPLE" (.column none "c")], [.column none "d"]]) false false)
+example : anyQ illFormed emptyGroupQ = false := by decide
+example (d : Gen.D) : ∃ s, prQ d emptyGroupQ = .ok s := (printable_iff d _).2 (by cases d <;> decide)
+example (d d' : Gen.D) : prQ d bracketGroupQ = prQ d' bracketGroupQ := dialect_irrelevant_otherwise_query _ (by decide) d d'
+#guard Gen.allD.all fun d => isOkText (prQ d emptyGroupQ) "SELECT `a`\nFROM `t`\nGROUP BY `a` GROUPING SETS ((), `a`)"
+#guard Gen.allD.all fun d => isOkText (prQ d bracketGroupQ) "SELECT `a`\nFROM `t`\nGROUP BY `a` GROUPING SETS (((`a` + `b`) * `c`), `d`)"
+/-- a refused construct inside an (otherwise empty-neighboured) grouping set still propagates -/
+def modInGroupQ : Query := gsel (.mk [.column none "a"] (some [[], [.compute (.column none "a") "MOD" (.literal "2")]]) false false)
+example : prQ .ORACLE modInGroupQ = .error .notSupported :=
+  refusal_is_notSupported_query .mod .ORACLE modInGroupQ (by decide) (by decide) (by decide)
+
 /-- DEFAULT refuses the array index at depth, Hive prints it (C01.print_total_on_default / print_total_on_hive) -/
 def deepIndexQ : Query := .single (sel [(.literal "1", none)] "v"
   (some (.exists_ (.subQuery (.single (sel [(.literal "1", none)] "w" (some (.index (.column none "x") (.literal "0")))))))))
